@@ -120,10 +120,13 @@ pub fn drive(args: &[String]) {
     let mut out = Out::create(arg(args, "--out").expect("--out"));
     let mut rng = Prng::new(seed ^ 0x10c);
     for sci in 0..n_sc {
-        let ne = [2u64, 3, 5, 10, 30, 60][rng.below(6) as usize];
+        // one scenario in five: a tracked element pinned to every window boundary among never-repeating
+        // elements (large alphabet) -- the stream that stresses the table bound
+        let pinned = sci % 5 == 4;
+        let ne = if pinned { 150 + rng.below(200) } else { [2u64, 3, 5, 10, 30, 60][rng.below(6) as usize] };
         let (cfg, width) = match rng.below(4) {
             0 => {
-                let (en, ed) = [(3u64, 10u64), (1, 3), (2, 7), (1, 10), (9, 10), (1, 100)][rng.below(6) as usize];
+                let (en, ed) = [(3u64, 10u64), (1, 3), (2, 7), (1, 10), (9, 10), (1, 100), (7, 100), (3, 13), (4, 17), (10, 41), (3, 10), (7, 100)][rng.below(12) as usize];
                 let w = ((ed as f64) / (en as f64)).ceil() as u64;
                 (json!({"ne": ne, "eps_num": en, "eps_den": ed, "d": 12}), w)
             }
@@ -137,8 +140,15 @@ pub fn drive(args: &[String]) {
                 (json!({"ne": ne, "width": w, "d": 12}), w)
             }
         };
-        let n = (width * (3 + rng.below(12)) + rng.below(width + 1)).min(max_n).max(10);
-        let shape = rng.below(4);
+        let (cfg, width) = if pinned {
+            let w = [4u64, 10, 20, 7][rng.below(4) as usize];
+            (json!({"ne": ne, "width": w, "d": 12}), w)
+        } else {
+            (cfg, width)
+        };
+        let n = if pinned { (ne - 1).min(max_n) } else { (width * (3 + rng.below(12)) + rng.below(width + 1)).min(max_n).max(10) };
+        let shape = if pinned { 4 } else { rng.below(4) };
+        let mut fresh = 1u64;
         let mut steps: Vec<Value> = vec![];
         for i in 1..=n {
             let e = match shape {
@@ -152,11 +162,14 @@ pub fn drive(args: &[String]) {
                     // adversarial: element 1 occurs right after every window boundary, the rest cycles
                     if i % width == 1 % width { 1 } else { 2 + (i % (ne - 1).max(1)) }.min(ne)
                 }
+                4 => {
+                    if i % width == 0 || i == 1 { 1 } else { fresh += 1; fresh.min(ne) }
+                }
                 _ => 1 + (i % ne),
             };
             let record = i <= 8 || i % width <= 1 || i % width == width - 1 || i % 97 == 0 || i == n;
             steps.push(json!({"obj": "a", "op": {"name":"add","e": e, "skip": !record}}));
-            if rng.below(3000) == 0 {
+            if rng.below(if n <= 300 { 50 } else { 3000 }) == 0 {
                 steps.push(json!({"obj": "a", "op": {"name":"clear"}}));
             }
         }
